@@ -32,9 +32,9 @@ def main():
     import py_ballisticcalc.unit as unit
     x = z3.Real('x')
 
-    # 1. unmodelled operators trap instead of silently producing NaN
+    # 1. unmodelled operators trap instead of silently producing NaN; floor-like operators are modelled
     def t1(eng):
-        for f in (lambda v: v // 2, lambda v: int(v), lambda v: divmod(v, 2)):
+        for f in (lambda v: v.__reduce__(), lambda v: stubs.symmath.frexp(v)):
             try:
                 f(SymFloat(x))
                 return False
@@ -42,6 +42,19 @@ def main():
                 pass
         return True
     assert all(run(t1)[0]), 'trap'
+
+    def t1b(eng):
+        eng.add_axiom(z3.And(x >= 0, x < 3))
+        v = SymFloat(x)
+        q, r = divmod(v, 1.0)
+        k = int(v)                     # forks over 0, 1, 2
+        ok = eng.decide(z3.And(q.t == k, r.t == x - k)) and not eng.decide(z3.Not(z3.And(q.t == k, r.t == x - k)))
+        ok = ok and math.floor(v).__index__() == k and (v // 1).t.eq(q.t)
+        d = {v: 'a'}                   # symbolic dict keys: one bucket, == decides
+        ok = ok and d[SymFloat(x + 0)] == 'a'
+        return (k, ok)
+    res, _ = run(t1b)
+    assert sorted(res) == [(0, True), (1, True), (2, True)], res
 
     # 2. a NaN that leaked through C code is refused when it meets a symbolic value
     def t2(eng):
